@@ -4,6 +4,7 @@ Emitted as lean/Astm/Generated/Footprint.lean; `Astm.C04.footprint_per_instance`
 "one protocol instance per connection, all session state in instance attributes" is the right model."""
 import ast
 import os
+import re
 
 from translate import HEADER, lean_str
 
@@ -114,10 +115,49 @@ def gen_footprint(repo, info):
                     if kw.arg == "queue" and isinstance(kw.value, ast.Name) and kw.value.id in queue_names \
                             and kw.value.id in consume_args:
                         passes_queue = True
+    # server.py : consumer task, dispatch callback, archive call
+    ssrc = ast.unparse(stree)
+    main_fn = None
+    for node in stree.body:
+        if isinstance(node, ast.FunctionDef) and node.name == "main":
+            main_fn = node
+    consume_fn = None
+    for node in stree.body:
+        if isinstance(node, ast.AsyncFunctionDef) and node.name == "consume":
+            consume_fn = node
+    wiring = {"consumeTask": False, "callbackIsDispatch": False, "writeWhenOutput": False, "writeArgs": False,
+              "formatFromArgs": False, "consumeLoopsForever": False, "consumeCallsCallbackPerItem": False,
+              "formatDefault": None}
+    if main_fn is not None:
+        for node in ast.walk(main_fn):
+            if isinstance(node, ast.Call) and ast.unparse(node.func) == "loop.create_task" and node.args:
+                inner = node.args[0]
+                if isinstance(inner, ast.Call) and ast.unparse(inner.func) == "consume":
+                    wiring["consumeTask"] = bool(inner.args) and isinstance(inner.args[0], ast.Name) \
+                        and inner.args[0].id in queue_names
+                    for kw in inner.keywords:
+                        if kw.arg == "callback" and ast.unparse(kw.value) == "dispatch_astm_message":
+                            wiring["callbackIsDispatch"] = True
+            if isinstance(node, ast.FunctionDef) and node.name == "dispatch_astm_message":
+                for sub in ast.walk(node):
+                    if isinstance(sub, ast.If) and ast.unparse(sub.test) == "output":
+                        body = ast.unparse(sub)
+                        wiring["writeWhenOutput"] = "write_message" in body
+                        wiring["writeArgs"] = bool(re.search(r"to_thread\(\s*write_message,\s*message,\s*path\)", body)) \
+                            and "path = os.path.abspath(output)" in body
+            if isinstance(node, ast.Call) and ast.unparse(node.func) == "ASTMProtocol":
+                for kw in node.keywords:
+                    if kw.arg == "message_format" and ast.unparse(kw.value) == "args.message_format":
+                        wiring["formatFromArgs"] = True
+    if consume_fn is not None:
+        csrc = ast.unparse(consume_fn)
+        wiring["consumeLoopsForever"] = "while True:" in csrc and "await queue.get()" in csrc
+        wiring["consumeCallsCallbackPerItem"] = bool(re.search(r"message = await queue.get\(\)\s+if callable\(callback\):\s+callback\(message\)", csrc))
     fp = {
         "classLevelAssigns": class_assigns, "mutableDefaultArgs": mutable_defaults, "globalStores": global_stores,
         "moduleMutables": module_mutables, "initAttrs": init_attrs, "storedAttrs": stored_attrs,
         "sharedMutableInitValues": shared_init, "factoryFreshInstance": fresh, "factoryPassesQueue": passes_queue,
+        "wiring": wiring,
     }
     info["footprint"] = fp
     lines = [HEADER, "namespace Astm", "",
@@ -131,6 +171,13 @@ def gen_footprint(repo, info):
              "  sharedMutableInitValues : List String",
              "  factoryFreshInstance : Bool",
              "  factoryPassesQueue : Bool",
+             "  consumeTask : Bool            -- loop.create_task(consume(<the queue>, callback=...))",
+             "  callbackIsDispatch : Bool     -- callback=dispatch_astm_message",
+             "  writeWhenOutput : Bool        -- dispatch: `if output:` ... write_message",
+             "  writeArgs : Bool              -- asyncio.to_thread(write_message, message, os.path.abspath(output))",
+             "  formatFromArgs : Bool         -- ASTMProtocol(..., message_format=args.message_format)",
+             "  consumeLoopsForever : Bool    -- while True: message = await queue.get()",
+             "  consumeCallsCallbackPerItem : Bool",
              "",
              "/-- extracted from protocol.py (class ASTMProtocol) and server.py (create_server factory) -/",
              "def protocolFootprint : Footprint where"]
@@ -139,6 +186,9 @@ def gen_footprint(repo, info):
         lines.append("  %s := %s" % (k, lst(fp[k])))
     lines.append("  factoryFreshInstance := %s" % ("true" if fresh else "false"))
     lines.append("  factoryPassesQueue := %s" % ("true" if passes_queue else "false"))
+    for k in ["consumeTask", "callbackIsDispatch", "writeWhenOutput", "writeArgs", "formatFromArgs", "consumeLoopsForever",
+              "consumeCallsCallbackPerItem"]:
+        lines.append("  %s := %s" % (k, "true" if wiring[k] else "false"))
     lines += ["", "end Astm", ""]
     return {"Footprint.lean": "\n".join(lines)}
 
